@@ -13,7 +13,8 @@ RULE = ('E2 histories (Master + ZkBackend + masterapi on the fake ZooKeeper) '
         'directions. Non-trivial = a history with >=3 published cycles in '
         'which entries were created, moved/deleted, and >=1 comparison saw '
         '>=2 entries. distinct = canonical JSON.'
-        ' Since round 6: buckets leaving/re-entering the cell and re-parenting are part of the histories.')
+        ' Since round 6: buckets leaving/re-entering the cell and re-parenting are part of the histories.'
+        ' Since round 8: rack definitions deleted under their servers (rmbucket, no event) followed by work and a master start.')
 ASSUMPTIONS = [
     'fake ZooKeeper (pbt/fakezk.py) stands in for the ensemble',
     'presence nodes are named by plain host name (loader/master convention '
